@@ -491,6 +491,63 @@ def rule_r6(rep, repo, eng):
             else:
                 rep.ok("R6.memo-key-complete", f"{q}:{norm(tgt)[:40]}", repo.rel(f.module, s_),
                        f"value deps {sorted(vdeps)} covered by key/container deps {sorted(kdeps)}")
+    # a store into a container that is a *parameter* which callers bind to module state (`_get_cached_or_load(cache_dict, ...)`):
+    # key and value dependencies are computed in the helper and translated, per call site, into the caller's terms
+    for q, f in repo.funcs.items():
+        if f.is_lambda or repo.by_node.get(id(f.node)) is not f or not eng.st[q].param_stores:
+            continue
+        hparams = [p_ for p_ in f.allparams if not (f.is_method and p_ == f.allparams[0])]
+        hdefs = local_defs(f.node)
+        hset = set(f.allparams)
+        for s_ in ast.walk(f.node):
+            if not (isinstance(s_, ast.Assign) and isinstance(s_.targets[0], ast.Subscript) and
+                    isinstance(s_.targets[0].value, ast.Name) and s_.targets[0].value.id in hparams):
+                continue
+            cpar = s_.targets[0].value.id
+            tgt = s_.targets[0]
+            vdeps_h = _deps(s_.value, hset, hdefs)
+            cov_h = _deps(tgt.slice, hset, hdefs) | {cpar}
+            for g_ in _call_groups(f.node):
+                if g_ & _names(tgt.slice):
+                    for nm in g_:
+                        cov_h |= _deps(ast.Name(id=nm, ctx=ast.Load()), hset, hdefs)
+            for cq, cf in repo.funcs.items():
+                if cf.is_lambda or repo.by_node.get(id(cf.node)) is not cf:
+                    continue
+                for c_ in ast.walk(cf.node):
+                    if not (isinstance(c_, ast.Call) and ((isinstance(c_.func, ast.Attribute) and c_.func.attr == f.name) or
+                                                           (isinstance(c_.func, ast.Name) and c_.func.id == f.name))):
+                        continue
+                    bind = dict(zip(hparams, c_.args))
+                    bind.update({k_.arg: k_.value for k_ in c_.keywords if k_.arg})
+                    if cpar not in bind:
+                        continue
+                    # only call sites that hand over module state
+                    cst = eng.st[cq]
+                    cdefs = local_defs(cf.node)
+                    cset = set(cf.allparams)
+
+                    def D(p_):
+                        return _deps(bind[p_], cset, cdefs) if p_ in bind else set()
+                    cav_names = {x.id for x in ast.walk(bind[cpar]) if isinstance(x, ast.Name)}
+                    vd = set().union(*[D(p_) for p_ in vdeps_h if p_ in bind]) if vdeps_h else set()
+                    cov = set().union(*[D(p_) for p_ in cov_h if p_ in bind]) if cov_h else set()
+                    for g_ in _call_groups(cf.node):
+                        key_names = set().union(*[{x.id for x in ast.walk(bind[p_]) if isinstance(x, ast.Name)}
+                                                  for p_ in (_deps(tgt.slice, hset, hdefs) & set(bind))]) if bind else set()
+                        if g_ & key_names:
+                            for nm in g_:
+                                cov |= _deps(ast.Name(id=nm, ctx=ast.Load()), cset, cdefs)
+                    n += 1
+                    missing = {p_ for p_ in vd - cov if p_ not in ("self", "cls", "cache")}
+                    if missing:
+                        rep.violation("R6.memo-key-complete", q, cpar,
+                                      f"`{norm(s_)[:90]}` (called from {cq}) remembers a value that depends on {sorted(vd)} under a key "
+                                      f"/ container that only depends on {sorted(cov) or 'nothing'}: a later call with another "
+                                      f"`{sorted(missing)[0]}` is served the result remembered for the first one", repo.rel(f.module, s_))
+                    else:
+                        rep.ok("R6.memo-key-complete", f"{q}:{norm(tgt)[:40]}<-{cq}", repo.rel(f.module, s_),
+                               f"value deps {sorted(vd)} covered by key/container deps {sorted(cov)} at the call site")
     rep.floor("stores into module-level containers", n, 1)
 
 
